@@ -113,7 +113,7 @@ class Unit:
             # type aliases: NAME -> pointee type of parameter i of wrapper w
             for k, (wn, i) in sorted(s.type_aliases.items()):
                 if wn not in fn: raise ToolError("type alias %s: wrapper %s not in unit %s" % (k, wn, s.name))
-                ty = fn[wn]["params"][i][0]
+                ty = fn[wn]["ret"] if i < 0 else fn[wn]["params"][i][0]
                 f.write("#define %s %s\n" % (k, ty[:-1] if ty.endswith("*") else ty))
         s.built = True
         return s
